@@ -133,6 +133,11 @@ def evalCharconv (toks : List String) : Option (String × String × String) :=
     let len ← len.toNat?; let rep ← rep.toInt?
     let r := scaledToChars T e x len rep
     some (showRes tcShowTCR r, if tcIsMostNegMsg r then "most_negative_integer" else "", "sc/" ++ tcBranchOf r (tcHasE r))
+  | ["capw", d, sg] => do
+    -- to_chars_capacity<wide_integer<D, int|unsigned>>: same formula over the declared digits
+    let d ← d.toNat?
+    let T : IntTy := if sg == "s" then ⟨d + 1, true⟩ else ⟨d, false⟩
+    some (toString (intCapacity T), "", "cap/wide")
   | ["cap", t] => do
     match ← parseTcTyK t with
     | .int T => some (toString (intCapacity T), "", "cap/int")
@@ -172,6 +177,11 @@ def checkC13 (toks : List String) (res : String) : Option Verdict := do
     let len ← len.toNat?
     some { model := m, spec := some (c13Contract len res), cls := cls, branch := br, nontrivial := len > 0 }
   | ["cap", _] => some { model := m, spec := none, branch := br, nontrivial := false }
+  | ["capw", d, sg] =>
+    -- the fixed capacity must hold the longest numeral of the type: all digits of 2^D - 1 plus a sign
+    let d ← d.toNat?
+    let need := (toString (2^d - 1 : Nat)).length + (if sg == "s" then 1 else 0)
+    some { model := m, spec := some ((res.toNat?.getD 0) ≥ need), branch := br }
   | ["fixb", _, _, _] =>
     -- to_chars_static<Base> succeeds for every value: `<length>:<array>` with a positive length
     let good := match res.splitOn ":" with
